@@ -301,6 +301,7 @@ def run(v, tier, seed):
 
 
 def replay(rp):
+    """Re-execute the single (image, n, operation) vector of a violation with the same build."""
     case = rp.get("case") or {}
     print(json.dumps({k: rp[k] for k in ("property", "signature", "desc")}, indent=1))
     vec = case.get("vector")
@@ -308,5 +309,27 @@ def replay(rp):
         print(json.dumps(case, indent=1)[:4000])
         return 0
     print(json.dumps({k: vec[k] for k in vec if k != "buf"}, indent=1)[:5000])
-    print("to re-execute: ./verif check C10   (vectors are regenerated deterministically from VERIF_SEED)")
-    return 0
+    S = [x for x in catalogue.view_schemas() if x["package"] == case["schema"]][0]
+    name = S["package"]
+    wd = vlib.fresh_dir(os.path.join(vlib.WORK, "c10", "replay"))
+    inc = vlib.gen_headers(sch.to_xml(S), name)
+    disp = os.path.join(wd, "dispatch_%s.inc" % name)
+    disp2 = os.path.join(wd, "dispatch_c10_%s.inc" % name)
+    vlib.write(disp, viewgen.dispatch_cpp(S))
+    vlib.write(disp2, checkedgen.dispatch_cpp(S))
+    ok, out = build(S, name, inc, disp, disp2, tuple(case["config"]))
+    if not ok:
+        print("harness does not compile:\n" + out[-2000:])
+        return 2
+    op = dict(vec["op"])
+    op.update({"tr": vec["touched"], "rq": vec["req"], "far": False, "dead": False, "grow": False, "recv": 0})
+    code = {"must_assert": 0, "must_ok": 1, "either": 2}[vec["outcome"]] + (3 if vec.get("receiver_beyond_end") else 0)
+    vp = os.path.join(wd, "one.ndjson")
+    vlib.write_ndjson(vp, [{"kind": "c10img", "msg": vec["msg"], "img": vec["img"], "v0": vec["v0"], "full": len(vec["buf"]),
+                            "buf": vec["buf"], "hv": vec["hv"], "ops": [op]},
+                           {"kind": "c10n", "msg": vec["msg"], "img": vec["img"], "n": vec["n"], "out": [code]}])
+    mism, stat, proc = vlib.run_harness(out, ["replay", name, vp], timeout=120)
+    for m in mism:
+        print("MISMATCH %s: %s\n  observed: %s" % (m["sig"], m["desc"], json.dumps(m["case"].get("observed"))))
+    print("%d mismatch(es) when re-executing the vector (%s %s)" % (len(mism), case["config"][0], case["config"][1]))
+    return 1 if mism else 0
